@@ -17,6 +17,7 @@ package h2
 import (
 	"bytes"
 	"fmt"
+	"sync/atomic"
 
 	"golang.org/x/net/http2"
 )
@@ -61,6 +62,10 @@ type queuedDataFrame struct {
 	streamID  uint32
 	endStream bool
 	data      []byte
+	// maxFrameSize, if set, points to the receiver's current SETTINGS_MAX_FRAME_SIZE (accessed
+	// atomically). A frame may wait in the queue for window credit while the receiver lowers that
+	// setting, so the limit is applied again when the frame is sent.
+	maxFrameSize *uint32
 }
 
 func (f *queuedDataFrame) StreamID() uint32 {
@@ -72,7 +77,18 @@ func (f *queuedDataFrame) flowControlSize() int {
 }
 
 func (f *queuedDataFrame) send(dest *http2.Framer) error {
-	return dest.WriteData(f.streamID, f.endStream, f.data)
+	data := f.data
+	if f.maxFrameSize != nil {
+		// The payload was cut to the maximum frame size in force when it was queued. If the receiver
+		// has lowered the setting since, the payload goes out in several frames. Flow control was
+		// accounted for the whole payload, which is unchanged.
+		for max := int(atomic.LoadUint32(f.maxFrameSize)); max > 0 && len(data) > max; data = data[max:] {
+			if err := dest.WriteData(f.streamID, false, data[:max]); err != nil {
+				return err
+			}
+		}
+	}
+	return dest.WriteData(f.streamID, f.endStream, data)
 }
 
 func (f *queuedDataFrame) String() string {
